@@ -44,7 +44,7 @@ Qed.
 
 Lemma panic_while_post c body_lo a : panic (while_post c body_lo a) = panic a.
 Proof.
-  unfold while_post. destruct (get_end_reason a body_lo) as [e|]; cbn [oend_forced].
+  unfold while_post, while_post_r. destruct (get_end_reason a body_lo) as [e|]; cbn [oend_forced].
   - destruct (known_true c && is_forced e && negb (fb_unlabelled (s_fb (sc a)))); [cbn [set_end with_sc panic]; apply panic_mark|].
     destruct (known_true c && negb (fb_unlabelled (s_fb (sc a)))); cbn [set_end with_sc panic]; apply panic_mark.
   - rewrite andb_false_r. cbn [andb].
@@ -53,7 +53,7 @@ Qed.
 
 Lemma panic_dowhile_post c body_lo a : panic (dowhile_post fx c body_lo a) = panic a.
 Proof.
-  unfold dowhile_post. destruct (get_end_reason a body_lo) as [e|]; cbn [oend_forced].
+  unfold dowhile_post, dowhile_post_r. destruct (get_end_reason a body_lo) as [e|]; cbn [oend_forced].
   - destruct (is_forced e && negb (fb_unlabelled (s_fb (sc a))) && negb (fixA fx && s_fc (sc a))); [cbn [set_end with_sc panic]; apply panic_mark|].
     destruct (known_true c && fb_none (s_fb (sc a))); cbn [set_end with_sc panic]; apply panic_mark.
   - cbn [andb].
@@ -62,9 +62,7 @@ Qed.
 
 Lemma panic_for_post p c body_lo a : panic (for_post p c body_lo a) = panic a.
 Proof.
-  unfold for_post.
-  match goal with |- context [if ?b then mark_as_end p ?e a else a] =>
-    destruct b; cbn [negb orb] end.
+  unfold for_post, for_post_r. destruct (for_forced c a); cbn [negb orb].
   - destruct (fb_unlabelled (s_fb (sc a))); cbn [set_end with_sc panic]; rewrite ?panic_mark; reflexivity.
   - cbn [set_end with_sc panic]. rewrite panic_mark. reflexivity.
 Qed.
@@ -74,7 +72,7 @@ Proof. unfold forin_post. cbn [set_end with_sc panic]. apply panic_mark. Qed.
 
 Lemma panic_if_else_end p a b x : panic (if_else_end p a b x) = panic x.
 Proof.
-  unfold if_else_end. destruct a as [a|]; [|apply panic_mark]. destruct b as [b|]; [|apply panic_mark].
+  unfold if_else_end, if_else_mark. destruct a as [a|]; [|apply panic_mark]. destruct b as [b|]; [|apply panic_mark].
   destruct a, b; cbn [is_forced andb merge_forced]; apply panic_mark.
 Qed.
 
@@ -99,50 +97,121 @@ Ltac pn :=
             ?panic_child_enter, ?panic_set_unreach;
           cbn [set_end set_mt set_fc set_fb with_sc panic]).
 
+(* `op` keeps the panic flag down *)
+Definition quiet (op : st -> st) : Prop := forall y, panic y = false -> panic (op y) = false.
+
+Lemma quiet_with_child k start op x : quiet op -> panic x = false -> panic (with_child fx k start op x) = false.
+Proof. intros Hop Hx. unfold with_child. pn. apply Hop. pn. exact Hx. Qed.
+
+Lemma quiet_block_end p op : quiet op -> quiet (fun a => block_end p (op a)).
+Proof. intros Hop y Hy. pn. apply Hop. exact Hy. Qed.
+
+Lemma quiet_orb_mark s op : quiet op -> quiet (fun a => orb_mark s (op a)).
+Proof. intros Hop y Hy. pn. apply Hop. exact Hy. Qed.
+
+Lemma quiet_visit_if p c p1 op1 x : quiet op1 -> panic x = false -> panic (visit_if fx p c p1 op1 x) = false.
+Proof. intros H1 Hx. unfold visit_if. pn. apply quiet_with_child; [exact H1 | pn; exact Hx]. Qed.
+
+Lemma quiet_visit_if_else p c p1 op1 p2 op2 x :
+  quiet op1 -> quiet op2 -> panic x = false -> panic (visit_if_else fx p c p1 op1 p2 op2 x) = false.
+Proof.
+  intros H1 H2 Hx. unfold visit_if_else. pn.
+  apply quiet_with_child; [exact H2|]. apply quiet_with_child; [exact H1 | pn; exact Hx].
+Qed.
+
+Lemma quiet_visit_while c lo op x : quiet op -> panic x = false -> panic (visit_while fx c lo op x) = false.
+Proof.
+  intros H1 Hx. unfold visit_while. pn. apply quiet_with_child; [|exact Hx].
+  intros y Hy. pn. apply H1. exact Hy.
+Qed.
+
+Lemma quiet_visit_do_while p c lo op x : quiet op -> panic x = false -> panic (visit_do_while fx p c lo op x) = false.
+Proof.
+  intros H1 Hx. unfold visit_do_while.
+  assert (H : panic (with_child fx KLoop lo (fun a => dowhile_post fx c lo (op a)) x) = false).
+  { apply quiet_with_child; [|exact Hx]. intros y Hy. pn. apply H1. exact Hy. }
+  cbv zeta. unfold dowhile_tail. destruct (get_end_reason _ lo) as [e|]; [destruct (is_forced e)|]; pn; exact H.
+Qed.
+
+Lemma quiet_visit_for p c lo op x : quiet op -> panic x = false -> panic (visit_for fx p c lo op x) = false.
+Proof.
+  intros H1 Hx. unfold visit_for. apply quiet_with_child.
+  - intros y Hy. pn. apply H1. exact Hy.
+  - destruct c; pn; exact Hx.
+Qed.
+
+Lemma quiet_visit_for_in lo op x : quiet op -> panic x = false -> panic (visit_for_in fx lo op x) = false.
+Proof.
+  intros H1 Hx. unfold visit_for_in. apply quiet_with_child; [|exact Hx].
+  intros y Hy. pn. apply H1. exact Hy.
+Qed.
+
+Lemma quiet_visit_switch p cs opc x : quiet opc -> panic x = false -> panic (visit_switch p cs opc x) = false.
+Proof.
+  intros H1 Hx. unfold visit_switch, switch_tail. cbv zeta.
+  match goal with |- panic (if ?b then _ else _) = false => destruct b end; pn; apply H1; exact Hx.
+Qed.
+
+Lemma quiet_visit_case cp op y : quiet op -> panic y = false -> panic (visit_case fx cp op y) = false.
+Proof. intros H1 Hy. unfold visit_case. pn. apply H1. pn. exact Hy. Qed.
+
+Lemma quiet_try_handler cp hbp prev op x : quiet op -> panic x = false -> panic (try_handler fx cp hbp prev op x) = false.
+Proof.
+  intros H1 Hx. unfold try_handler. cbv zeta.
+  assert (H : forall y, panic y = false -> panic (with_child fx KCatch cp (fun a => block_end hbp (op a)) y) = false).
+  { intros y Hy. apply quiet_with_child; [apply quiet_block_end; exact H1 | exact Hy]. }
+  destruct (s_mt (sc x)); pn; apply H; pn; exact Hx.
+Qed.
+
+Lemma quiet_try_finalizer fp prev op x : quiet op -> panic x = false -> panic (try_finalizer fx fp prev op x) = false.
+Proof.
+  intros H1 Hx. unfold try_finalizer. pn.
+  apply quiet_with_child; [apply quiet_block_end; exact H1 | pn; exact Hx].
+Qed.
+
+Lemma quiet_try_finish p old x : panic x = false -> panic (try_finish p old x) = false.
+Proof. intros Hx. unfold try_finish. destruct (s_end (sc x)); pn; exact Hx. Qed.
+
+Lemma quiet_visit_try p bp blk h hb f fb x :
+  quiet blk -> quiet hb -> quiet fb -> panic x = false -> panic (visit_try fx p bp blk h hb f fb x) = false.
+Proof.
+  intros Hb Hh Hf Hx. unfold visit_try. cbv zeta. apply quiet_try_finish.
+  assert (H1 : panic (block_end bp (blk (set_mt x false))) = false) by (pn; apply Hb; pn; exact Hx).
+  assert (H2 : panic (match h with Some (cp, hbp) => try_handler fx cp hbp (s_end (sc x)) hb (block_end bp (blk (set_mt x false)))
+                               | None => block_end bp (blk (set_mt x false)) end) = false).
+  { destruct h as [[cp hbp]|]; [apply quiet_try_handler; assumption | exact H1]. }
+  destruct f as [fp|]; [apply quiet_try_finalizer; assumption | exact H2].
+Qed.
+
 Lemma an_no_panic :
-  (forall s x, panic x = false -> panic (an fx s x) = false) /\
-  (forall l x, panic x = false -> panic (an_list fx l x) = false) /\
-  (forall cs x, panic x = false -> panic (an_cases fx cs x) = false).
+  (forall s, quiet (an fx s)) /\ (forall l, quiet (an_list fx l)) /\ (forall cs, quiet (an_cases fx cs)).
 Proof.
   apply stmt_mutind.
   - intros p e x Hx. cbn [an]. pn. exact Hx.
   - intros p x Hx. cbn [an]. exact Hx.
   - intros p v i x Hx. cbn [an]. destruct i; pn; exact Hx.
-  - intros p n pb b IHb x Hx. cbn [an]. pn. apply IHb. exact Hx.
-  - intros p pb b IHb x Hx. cbn [an]. pn. apply IHb. exact Hx.
-  - intros p a x Hx. cbn [an]. pn. destruct a; pn; exact Hx.
-  - intros p e x Hx. cbn [an]. pn. destruct (fixD fx); pn; exact Hx.
+  - intros p n pb b IHb x Hx. cbn [an]. unfold visit_fn_like. apply quiet_with_child; [apply quiet_block_end; exact IHb | exact Hx].
+  - intros p pb b IHb x Hx. cbn [an]. pn. unfold visit_fn_like. apply quiet_with_child; [apply quiet_block_end; exact IHb | exact Hx].
+  - intros p a x Hx. cbn [an]. unfold visit_return. destruct a; pn; exact Hx.
+  - intros p e x Hx. cbn [an]. unfold visit_throw. destruct (fixD fx); pn; exact Hx.
   - intros p l x Hx. cbn [an]. pn. exact Hx.
   - intros p l x Hx. cbn [an]. pn. exact Hx.
   - intros p b IHb x Hx. cbn [an]. pn. apply IHb. exact Hx.
-  - intros p c a IHa x Hx. cbn [an]. pn. apply IHa. pn. exact Hx.
-  - intros p c a IHa b IHb x Hx. cbn [an]. pn. apply IHb. pn. apply IHa. pn. exact Hx.
-  - intros p c b IHb x Hx. cbn [an]. pn. apply IHb. exact Hx.
-  - intros p b IHb c x Hx. cbn [an].
-    match goal with |- panic (visit_cond c (match ?o with _ => _ end)) = false => destruct o as [e|] end.
-    + destruct (is_forced e); pn; apply IHb; exact Hx.
-    + pn. apply IHb. exact Hx.
-  - intros p c b IHb x Hx. cbn [an]. pn. apply IHb. destruct c; pn; exact Hx.
-  - intros p b IHb x Hx. cbn [an]. pn. apply IHb. exact Hx.
-  - intros p b IHb x Hx. cbn [an]. pn. apply IHb. exact Hx.
-  - intros p cs IH x Hx. cbn [an].
-    match goal with |- panic (if ?b then _ else _) = false => destruct b end; pn; apply IH; exact Hx.
-  - intros p l b IHb x Hx. cbn [an]. pn. apply IHb. exact Hx.
-  - intros p bp blk IHb h hb IHh f fb IHf x Hx. cbn [an]. pn.
-    set (x1 := block_end bp (an_list fx blk (set_mt (set_unreach p (dead_now x) x) false))).
-    assert (H1 : panic x1 = false) by (unfold x1; pn; apply IHb; exact Hx).
-    set (x2 := match h with None => x1 | Some (cp, hbp) => _ end).
-    assert (H2 : panic x2 = false).
-    { unfold x2. destruct h as [[cp hbp]|]; [|exact H1].
-      destruct (s_mt (sc x1)); pn; apply IHh; exact H1. }
-    set (x3 := match f with None => x2 | Some fp => _ end).
-    assert (H3 : panic x3 = false).
-    { unfold x3. destruct f as [fp|]; [|exact H2]. pn. apply IHf. exact H2. }
-    destruct (s_end (sc x3)); pn; exact H3.
+  - intros p c a IHa x Hx. cbn [an]. apply quiet_visit_if; [apply quiet_orb_mark; exact IHa | exact Hx].
+  - intros p c a IHa b IHb x Hx. cbn [an].
+    apply quiet_visit_if_else; [apply quiet_orb_mark; exact IHa | apply quiet_orb_mark; exact IHb | exact Hx].
+  - intros p c b IHb x Hx. cbn [an]. apply quiet_visit_while; [exact IHb | exact Hx].
+  - intros p b IHb c x Hx. cbn [an]. apply quiet_visit_do_while; [exact IHb | exact Hx].
+  - intros p c b IHb x Hx. cbn [an]. apply quiet_visit_for; [exact IHb | exact Hx].
+  - intros p b IHb x Hx. cbn [an]. apply quiet_visit_for_in; [exact IHb | exact Hx].
+  - intros p b IHb x Hx. cbn [an]. apply quiet_visit_for_in; [exact IHb | exact Hx].
+  - intros p cs IH x Hx. cbn [an]. apply quiet_visit_switch; [exact IH | exact Hx].
+  - intros p l b IHb x Hx. cbn [an]. apply quiet_with_child; [apply quiet_orb_mark; exact IHb | exact Hx].
+  - intros p bp blk IHb h hb IHh f fb IHf x Hx. cbn [an]. apply quiet_visit_try; assumption.
   - intros x Hx. exact Hx.
   - intros s IHs r IHr x Hx. cbn [an_list]. apply IHr. pn. apply IHs. exact Hx.
   - intros x Hx. exact Hx.
-  - intros cp d ft b IHb r IHr x Hx. cbn [an_cases]. apply IHr. pn. apply IHb. exact Hx.
+  - intros cp d ft b IHb r IHr x Hx. cbn [an_cases]. apply IHr. apply quiet_visit_case; [exact IHb | exact Hx].
 Qed.
 
 Lemma iget_iset_same m k f : iget (iset m k f) k <> None.
